@@ -386,6 +386,9 @@ func (m *Manager) revertTip() error {
 	b, bs, cs, ok := blockAndParent(m.store, m.tipState.Index.ID)
 	if !ok {
 		return fmt.Errorf("%w %v", ErrMissingBlock, m.tipState.Index)
+	} else if bs == nil {
+		// a pruned block that was re-added has a body but no supplement
+		return fmt.Errorf("%w %v: missing supplement", ErrMissingBlock, m.tipState.Index)
 	}
 	cru := consensus.RevertBlock(cs, b, *bs)
 	m.store.RevertBlock(cs, cru)
